@@ -45,7 +45,10 @@ package service
 //@ func GetHTTPRequest
 //@   ghost-ensures failed == (old(failed) || result1 != nil)
 //@   also-modifies failed
+// every System call made on behalf of the request that returns an error marks the request failed
+//@ error-ghost failed \(\*sys\.System\)\..*
 //@ func (*Service).ProcessRequest
+//@   ensures[C18.errors_propagate] failed ==> result1 != nil
 //@   ghost-ensures failed == (old(failed) || (result1 != nil && !is(result1, *Redirect)))
 //@   also-modifies failed
 //@ func (*HTTPService).ServeHTTP
